@@ -404,7 +404,7 @@ def main():
         "checks": checks,
         "not_applicable": na,
         "notes": "fix: commits made in /repo are listed in /verif/known_findings.jsonl (status fixed; 63 so far). See DESIGN.md (section 10: what was built, "
-                 "10.6-10.12: third session). Self-test against seeded changes: 115 stored under /verif/seeded (6 rounds of fresh sub-agents), all caught; "
+                 "10.6-10.13: third session). Self-test against seeded changes: 121 stored under /verif/seeded (7 rounds of fresh sub-agents), all caught; "
                  "`bash harness/seedsweep.sh` re-runs every seed against the check of its property on scratch copies of /repo/src (never touches /repo), "
                  "`bash harness/seedrun2.sh <seed> <Cxx>` one of them, `bash harness/cleanruns.sh <VERIF_SEED>` every check once on the tree as it is.",
     }
